@@ -151,6 +151,9 @@ def values_corruptions():
     def pm_nth_len(e):
         e["ad"]["len"] += 1
 
+    def names(e):
+        e["square"][45][1], e["square"][46][1] = e["square"][46][1], e["square"][45][1]
+
     def pm_len(e):
         e["len"] += 1
 
@@ -184,6 +187,7 @@ def values_corruptions():
         ("two subsets swapped in subset iteration", "bb_subsets", lambda e: len(e["subs"]) > 3, bb_sub, "C18"),
         ("an item missing after nth on a bitboard iterator", "bb_iter", lambda e: e["k"] == "ok" and len(e["ad"]["rest"]) > 0, bb_nth, "C18"),
         ("remaining length after nth on a move iterator off by one", "pm", lambda e: e["k"] == "ok" and e["ad"]["k"] == "ok", pm_nth_len, "C17"),
+        ("Square::F6 and Square::G6 name each other's squares", "names", lambda e: True, names, "C19"),
         ("Debug board text shows a8 the other way", "bb_fmt", lambda e: e["k"] == "ok", bb_fmt, "EXT"),
         ("PieceMoves::len off by one", "pm", lambda e: e["k"] == "ok", pm_len, "C17"),
         ("PieceMoves::has accepts a king promotion", "pm", lambda e: len(e["to"]) > 0, pm_has, "C17"),
@@ -280,7 +284,7 @@ def run():
     vals = os.path.join(wd, "vals")
     problems += _run_family("bb", "bb", ["--cases", 40], "Trace_Values", allc, [c for c in values_corruptions() if c[1].startswith("bb")], wd)
     problems += _run_family("pm", "pm", ["--cases", 30, "--boards", 2], "Trace_Values", allc, [c for c in values_corruptions() if c[1] == "pm"], wd)
-    problems += _run_family("coord", "coord", ["--move-fuzz", 50], "Trace_Values", allc, [c for c in values_corruptions() if c[1] in ("offs", "txt")], wd)
+    problems += _run_family("coord", "coord", ["--move-fuzz", 50], "Trace_Values", allc, [c for c in values_corruptions() if c[1] in ("offs", "txt", "names")], wd)
     problems += _run_family("geom", "geom", ["--rook-squares", 1, "--bishop-squares", 2, "--random-occ", 20], "Trace_Values", allc, [c for c in values_corruptions() if c[1] in ("leap", "bl", "sl", "pq")], wd)
     problems += _run_family("parse", "parse", ["--bases", 3, "--random", 10, "--edits", 3], "Trace_Parse", allc, [c for c in parse_corruptions() if c[1] == "parse"], wd)
     problems += _run_family("cand", "cand", ["--bases", 6, "--random", 5, "--mutations", 3], "Trace_Parse", allc, [c for c in parse_corruptions() if c[1] == "build"], wd)
